@@ -121,6 +121,17 @@ def gen_oil():
 
 def gen_reservoir():
     m = P.Module(os.path.join(SRC, "flow", "reservoir.py"), "Gen_reservoir")
+    # positional constructor signatures of the public reservoir classes (dataclass fields, base classes first) and the parameters
+    # of their public methods
+    for cls in ("IdealReservoir", "SinglePhaseReservoir", "TwoPhaseReservoir", "MultiPhaseReservoir"):
+        m.emit_names(f"{cls}_fields", m.dataclass_fields(cls), f"{cls}(...): dataclass fields in constructor order")
+    for cls, meth in (("IdealReservoir", "simulate"), ("SinglePhaseReservoir", "simulate"), ("TwoPhaseReservoir", "simulate"), ("IdealReservoir", "recovery_factor")):
+        fn_ = m.method(cls, meth)
+        m.emit_names(f"{cls}_{meth}_params", [a.arg for a in fn_.args.args], f"{cls}.{meth}: parameters in order")
+    two = m.method("TwoPhaseReservoir", "simulate")
+    body2 = [n for n in two.body if not (isinstance(n, __import__("ast").Expr) and isinstance(n.value, __import__("ast").Constant))]
+    if [__import__("ast").unparse(n) for n in body2] != ["super().simulate(time)"]:
+        raise P.Untranslatable("TwoPhaseReservoir.simulate is no longer the plain delegation `super().simulate(time)`")
     _fn(m, "_build_matrix", emit_name="build_matrix", kinds={"kt_h2": "list"})
     m.aliases = {"_build_matrix": "build_matrix"}
     # fvf_scale of both classes and the flux stencil of recovery_factor
@@ -359,6 +370,8 @@ def gen_fluid():
     oil, _ = module("oil")
     water, _ = module("water")
     m = P.Module(os.path.join(SRC, "fluids", "fluid.py"), "Gen_fluid", imports=[gas, oil, water])
+    m.emit_names("Fluid_fields", m.dataclass_fields("Fluid"), "Fluid(...): dataclass fields in constructor order")
+    m.emit_names("build_pvt_gas_params", [a.arg for a in m.funcs["build_pvt_gas"].args.args], "build_pvt_gas: parameters in order")
     for meth in ("water_FVF", "water_viscosity", "gas_FVF", "gas_viscosity", "oil_FVF", "oil_viscosity"):
         P.Tr(m, m.method("Fluid", meth), emit_name="Fluid_" + meth, self_fields=FLUID_FIELDS,
              kinds={"pressure": "list"}).translate()
@@ -386,6 +399,10 @@ def re_sub(c):
 def gen_flowprops():
     import ast
     m = P.Module(os.path.join(SRC, "flow", "flowproperties.py"), "Gen_flowprops")
+    m.emit_names("RelPermParams_fields", m.namedtuple_fields("RelPermParams"), "RelPermParams: field order (= positional order)")
+    ft = [n for n in m.classes["FlowPropertiesTwoPhase"].body if isinstance(n, ast.FunctionDef) and n.name == "from_table"][0]
+    m.emit_names("from_table_params", [a.arg for a in ft.args.args], "FlowPropertiesTwoPhase.from_table: parameters in order")
+    m.emit_names("relative_permeabilities_twophase_params", [a.arg for a in m.funcs["relative_permeabilities_twophase"].args.args], "relative_permeabilities_twophase: parameters")
     P.Tr(m, m.funcs["lambda_combined_func"], kinds={"pvt": PVT_REC, "kr": KR_REC}).translate()
     P.Tr(m, m.funcs["compressibility_combined_func"], kinds={"pvt": PVT_REC}).translate()
     P.Tr(m, m.funcs["alpha_multiphase"], kinds={"pvt": PVT_REC, "kr": KR_REC}).translate()
@@ -446,6 +463,8 @@ def gen_flowprops():
 
 def gen_forecast():
     m = P.Module(os.path.join(SRC, "forecast", "forecast.py"), "Gen_forecast")
+    m.emit_names("ForecasterOnePhase_fields", m.dataclass_fields("ForecasterOnePhase"), "ForecasterOnePhase(...): dataclass fields in constructor order")
+    m.emit_names("Bounds_fields", m.dataclass_fields("Bounds"), "Bounds(...): dataclass fields in constructor order")
     P.Tr(m, m.funcs["_forecast_cum_onephase"], emit_name="forecast_cum_onephase", kinds={"rf_curve": "fun"}).translate()
 
     # ForecasterOnePhase.forecast_cum: which of M / tau is given is static; the object's fitted values and curve are parameters
